@@ -20,11 +20,23 @@ def listTy (T : SExp) (n : Nat) : SExp := .sub (.name "Tuple") (.tuple (List.rep
 def matrixTy (T : SExp) (n m : Nat) : SExp :=
   .sub (.name "Tuple") (.tuple (List.replicate n (.tuple (List.replicate m T))))
 
-theorem replaceAnn_qlist (T : SExp) (n : Nat) : replaceAnn (qlistAnn T n) = .ok (listTy T n) := by
-  simp [qlistAnn, listTy, replaceAnn, pure, Except.pure]
+theorem replaceAnn_qlist (T T' : SExp) (n : Nat) (hT : replaceAnn T = .ok T') :
+    replaceAnn (qlistAnn T n) = .ok (listTy T' n) := by
+  simp [qlistAnn, listTy, replaceAnn, hT, bind, Except.bind, pure, Except.pure]
 
-theorem replaceAnn_qmatrix (T : SExp) (n m : Nat) : replaceAnn (qmatrixAnn T n m) = .ok (matrixTy T n m) := by
-  simp [qmatrixAnn, matrixTy, replaceAnn, pure, Except.pure]
+theorem replaceAnn_qmatrix (T T' : SExp) (n m : Nat) (hT : replaceAnn T = .ok T') :
+    replaceAnn (qmatrixAnn T n m) = .ok (matrixTy T' n m) := by
+  simp [qmatrixAnn, matrixTy, replaceAnn, hT, bind, Except.bind, pure, Except.pure]
+
+/-- a `Qlist` nested in a `Qlist` is elaborated too (f3ecbf2): `Qlist[Qlist[T, m], n]` is `n` rows `Tuple[(T,)*m]` -/
+theorem replaceAnn_qlist_qlist (T T' : SExp) (n m : Nat) (hT : replaceAnn T = .ok T') :
+    replaceAnn (qlistAnn (qlistAnn T m) n) = .ok (listTy (listTy T' m) n) :=
+  replaceAnn_qlist _ _ n (replaceAnn_qlist T T' m hT)
+
+/-- a one-element `Tuple[bool]` (its slice is not a tuple) is elaborated into a one-element tuple type (f3ecbf2;
+before, it was left alone and the visit of the annotation raised `AttributeError`) -/
+theorem replaceAnn_tuple1_bool : replaceAnn (.sub (.name "Tuple") (.name "bool")) = .ok (listTy (.name "bool") 1) := by
+  rfl
 
 /-- a tuple type whose rows may be `Tuple[…]` annotations or bare tuples (what `Tuple[Tuple[…], …]`, `Qlist[Qlist…]`,
 `Qmatrix` give) -/
@@ -97,14 +109,16 @@ def elems2 (L : String) (c m : Nat) : List SExp := (List.range m).map fun i => a
 /-- **`__unroll_arg` on a tuple-typed name** -/
 theorem unrollArg_name (st : RSt) (t : String) (es : List SExp)
     (h : lookup st.types t = some (.ann (.sub (.name "Tuple") (.tuple es)))) :
-    unrollArg st (.name t) = .ok (elems1 t es.length) := by
+    ∀ strict, unrollArg st strict (.name t) = .ok (elems1 t es.length) := by
+  intro strict
   simp [unrollArg, h, EVal.asNode?, eltsOf, bind, Except.bind, pure, Except.pure, elems1, access1]
 
 /-- **`__unroll_arg` on a row `L[c]`**: as many elements as *that row* has (the repaired `C01-matrix-row-length`) -/
 theorem unrollArg_row (st : RSt) (L hd : String) (rows : List SExp) (c m : Nat) (row : SExp)
     (h : lookup st.types L = some (.ann (.sub (.name hd) (.tuple rows)))) (hc : rows[c]? = some row)
     (hrow : rowLen row = some m) :
-    unrollArg st (.sub (.name L) (.const (.int c))) = .ok (elems2 L c m) := by
+    ∀ strict, unrollArg st strict (.sub (.name L) (.const (.int c))) = .ok (elems2 L c m) := by
+  intro strict
   have hlt : c < rows.length := by
     rcases Nat.lt_or_ge c rows.length with h1 | h1
     · exact h1
@@ -130,7 +144,7 @@ theorem unrollArg_row (st : RSt) (L hd : String) (rows : List SExp) (c m : Nat) 
 
 theorem unrollArg_matrix_row (st : RSt) (L : String) (T : SExp) (n m c : Nat) (hc : c < n)
     (h : lookup st.types L = some (.ann (matrixTy T n m))) :
-    unrollArg st (.sub (.name L) (.const (.int c))) = .ok (elems2 L c m) :=
+    ∀ strict, unrollArg st strict (.sub (.name L) (.const (.int c))) = .ok (elems2 L c m) :=
   unrollArg_row st L "Tuple" _ c m (.tuple (List.replicate m T)) h
     (by simp [List.getElem?_replicate, hc]) (by simp [rowLen])
 
@@ -145,21 +159,32 @@ theorem visitE_user_name (st : RSt) (t : String) (ht : isDunder t = false) : vis
   simp [visitE, ht, pure, Except.pure]
 
 /-- what `len / sum / any / all` make of an argument that `__unroll_arg` turns into the elements `xs` -/
-theorem visitCall_len (st : RSt) (a : SExp) (xs : List SExp) (h : unrollArg st a = .ok xs) :
+theorem visitCall_len (st : RSt) (a : SExp) (xs : List SExp) (h : unrollArg st true a = .ok xs) :
     visitCall st "len" [a] = .ok (.const (.int xs.length)) := by
   simp [visitCall, h, bind, Except.bind, pure, Except.pure]
 
-theorem visitCall_sum (st : RSt) (a : SExp) (xs : List SExp) (h : unrollArg st a = .ok xs) :
+theorem visitCall_sum (st : RSt) (a : SExp) (xs : List SExp) (h : unrollArg st true a = .ok xs) :
     visitCall st "sum" [a] = sumChain xs := by
   simp [visitCall, h, bind, Except.bind]
 
-theorem visitCall_all (st : RSt) (a : SExp) (xs : List SExp) (h : unrollArg st a = .ok xs) :
+theorem visitCall_all (st : RSt) (a : SExp) (xs : List SExp) (h : unrollArg st true a = .ok xs) :
     visitCall st "all" [a] = .ok (.boolop true xs) := by
   simp [visitCall, h, bind, Except.bind, pure, Except.pure]
 
-theorem visitCall_any (st : RSt) (a : SExp) (xs : List SExp) (h : unrollArg st a = .ok xs) :
+theorem visitCall_any (st : RSt) (a : SExp) (xs : List SExp) (h : unrollArg st true a = .ok xs) :
     visitCall st "any" [a] = .ok (.boolop false xs) := by
   simp [visitCall, h, bind, Except.bind, pure, Except.pure]
+
+/-- **since 5e521a1**: `len`, `sum`, `any`, `all` (and one-argument `min` / `max`) refuse an argument `__unroll_arg` does not
+know - an if-expression (`m[i]` with a variable row index, once visited), a scalar variable … - instead of taking it as
+its own only element -/
+theorem unrollArg_strict_ite (st : RSt) (c a b : SExp) :
+    unrollArg st true (.ite c a b) = .error (.exc "Exception" "Not an iterable of known length") := by
+  simp [unrollArg, unrollRest, throw, throwThe, MonadExceptOf.throw]
+
+theorem visitCall_len_ite (st : RSt) (c a b : SExp) :
+    visitCall st "len" [.ite c a b] = .error (.exc "Exception" "Not an iterable of known length") := by
+  simp [visitCall, unrollArg_strict_ite, bind, Except.bind]
 
 /-- the visitor on `fn(a)` when visiting `a` gives `a'` -/
 theorem visitE_call1 (st : RSt) (fn : String) (a a' : SExp) (h : visitE st a = .ok a') :
